@@ -11,9 +11,13 @@ the flows of taint/taint_data_flow.json (statement ids joined to file + line thr
 Mechanism attribution of a missed flow (no hashes, recomputable from the case): the gadget is re-rendered alone;
 carriers are removed one at a time until a 1-minimal failing sub-chain is left (delta debugging over real lian runs),
 then source kind / sink kind / file layout / place are each swapped for a reference value to see whether they matter.
-Signature: `<source kind|any>-><sink kind|any>:via:<carrier.variant+...|direct>[:multi-file][:top-level]`.  After a
-mechanism is named its carriers are dropped from the chain and the remainder must pass on its own (or is attributed
-further), so a known mechanism explains only the flows it really loses."""
+Signature: `<source kind|any>-><sink kind|any>:via:<carrier.variant+...|direct>[:multi-file][:top-level]` (a carrier is
+named without variant when all its variants fail there; `:helper-reached-through-module-import` when the flow is found
+with `from m import f` and lost with `import m; m.f(..)`).  After a mechanism is named its carriers are dropped from the
+chain and the remainder must pass on its own (or is attributed further), so a known mechanism explains only the flows it
+really loses.  A mechanism whose shape in the program is not stable is named by a *compensation switch* instead: the
+isolated gadget is re-run with one internal step of lian emulated as repaired (harness-side patch in the child, see
+COMPENSATIONS); if exactly that makes the flow appear the signature is `any->any:mechanism:<switch>`."""
 import json
 import os
 import random
@@ -577,7 +581,6 @@ def main():
             k += n_g
             jobs.append((f"g{i}", case, LEVELS_C10[i % len(LEVELS_C10)]))
     timeout = 300 if not thorough else 900
-    by_tag = {j[0]: j for j in jobs}
     table = {}            # (sk, tk, carrier) -> [expected, found]
     missed = {}           # id -> gadget
     level_of = {}
